@@ -19,6 +19,9 @@ def main():
         if a.prop in ("C01", "C02", "C03", "C17", "C18"):
             import suite_mgr
             return suite_mgr.run(a.prop, a.tier, seed, a.replay)
+        if a.prop in ("C07", "C08"):
+            import suite_table
+            return suite_table.run(a.prop, a.tier, seed, a.replay)
         print("unknown property", a.prop)
         return 2
     except C.Infra as e:
